@@ -11,7 +11,9 @@ use smartcore::linear::logistic_regression::{LogisticRegression, LogisticRegress
 pub const SIGMA4: [f64; 4] = [0.0, 1.0, -1.0, 2.0];
 pub const LATTICE2: [[f64; 2]; 4] = [[0.0, 0.0], [1.0, 0.0], [0.0, 1.0], [1.0, 1.0]];
 /// feature maps x -> a x + b
-pub const MAPS: [(f64, f64); 3] = [(1.0, 0.0), (0.1, 3.0), (100.0, -50.0)];
+/// (the last one: a large common offset relative to the spread, still inside the quantifier's
+/// "scaled 1e-1..1e2 and shifted")
+pub const MAPS: [(f64, f64); 4] = [(1.0, 0.0), (0.1, 3.0), (100.0, -50.0), (60.0, 550.0)];
 /// alpha = 0 takes part in the monotonicity and prediction clauses only
 pub const ALPHAS: [f64; 4] = [1.0, 1e-2, 10.0, 0.0];
 /// the "ugly" label table: negative, non-contiguous, non-integer, not monotone in the letter
@@ -83,6 +85,10 @@ fn blocks(t: bool) -> Vec<Block> {
         Block { kind: "multiset", p: 1, kl: 3, n: 6, nx: 4, combos: std(&am, &aa) },
         Block { kind: "multiset", p: 2, kl: 3, n: 6, nx: 4, combos: if t { std(&am, &aa) } else { std(&[0, 2], &aa) } },
         Block { kind: "multiset", p: 1, kl: 4, n: 6, nx: 3, combos: if t { std(&am, &aa) } else { std(&[0, 2], &[0, 1, 3]) } },
+        // large offset relative to the spread
+        Block { kind: "multiset", p: 1, kl: 2, n: 6, nx: 4, combos: combos(&[3], &aa, false) },
+        Block { kind: "multiset", p: 2, kl: 2, n: 6, nx: 4, combos: combos(&[3], &[0, 2], false) },
+        Block { kind: "multiset", p: 1, kl: 3, n: 6, nx: 4, combos: combos(&[3], &[0, 2], false) },
     ];
     if t {
         v.push(Block { kind: "multiset", p: 1, kl: 4, n: 6, nx: 4, combos: std(&am, &aa) });
@@ -181,7 +187,7 @@ pub fn bounds(t: bool, seed: u64) -> Value {
         "seed_shift": (seed % 8) as f64 * 0.25,
         "label_tables": "plain: letter c -> c; ugly: letter c -> {-3, 7, 10, 8.5}[c]",
         "blocks": bl,
-        "structured": format!("n in {:?} x p in 1..6 x k in 2..4 x layouts {:?} x 3 maps x 4 alphas x 2 label tables", STRUCT_N, LAYOUTS),
+        "structured": format!("n in {:?} x p in 1..6 x k in 2..4 x layouts {:?} x 4 maps x 4 alphas x 2 label tables", STRUCT_N, LAYOUTS),
         "queries": "the training rows plus 3 off-lattice points (structured: plus the negated training rows shifted by -1/2)",
     })
 }
